@@ -271,6 +271,11 @@ func (e *strEval) evalCall(call *ssa.Call, resIdx int, fr *frame) ([]string, boo
 			}
 		}
 	}
+	if isBuilderMethod(callee, "String") && len(call.Common().Args) == 1 {
+		if out, ok := e.evalBuilder(call, fr); ok {
+			return out, true
+		}
+	}
 	if !e.m.inPkg(callee) || len(callee.Blocks) == 0 {
 		e.xformHoles++
 		if callee.Pkg != nil {
@@ -944,4 +949,117 @@ func cellPointerWritten(al ssa.Value, depth int, seen map[ssa.Value]bool) bool {
 		}
 	}
 	return false
+}
+
+func isBuilderMethod(f *ssa.Function, name string) bool {
+	if f == nil || f.Name() != name || f.Signature.Recv() == nil {
+		return false
+	}
+	return isPtrToNamed(f.Signature.Recv().Type(), "strings", "Builder")
+}
+
+// evalBuilder folds `b.String()` of a local strings.Builder that is only ever written with
+// WriteString/WriteByte/WriteRune: the set of texts written on the paths from the variable's
+// declaration to the call (a forward dataflow over the function's blocks; a write inside a loop
+// makes the set grow beyond the bound and the folder gives up).
+func (e *strEval) evalBuilder(call *ssa.Call, fr *frame) ([]string, bool) {
+	al, ok := stripConv(call.Common().Args[0]).(*ssa.Alloc)
+	if !ok || al.Referrers() == nil {
+		return nil, false
+	}
+	fn := call.Parent()
+	writes := map[*ssa.BasicBlock][]*ssa.Call{}
+	for _, ref := range *al.Referrers() {
+		c, ok := ref.(*ssa.Call)
+		if !ok || len(c.Common().Args) == 0 || stripConv(c.Common().Args[0]) != ssa.Value(al) {
+			return nil, false // the builder escapes
+		}
+		g := c.Common().StaticCallee()
+		switch {
+		case isBuilderMethod(g, "WriteString"), isBuilderMethod(g, "WriteByte"), isBuilderMethod(g, "WriteRune"):
+			writes[c.Block()] = append(writes[c.Block()], c)
+		case isBuilderMethod(g, "String"), isBuilderMethod(g, "Len"), isBuilderMethod(g, "Grow"):
+		default:
+			return nil, false
+		}
+	}
+	textOf := func(c *ssa.Call) ([]string, bool) {
+		arg := c.Common().Args[1]
+		if c.Common().StaticCallee().Name() == "WriteString" {
+			return e.eval(arg, fr)
+		}
+		if k, ok := stripConv(arg).(*ssa.Const); ok && k.Value != nil {
+			if n, ok := constant.Int64Val(k.Value); ok {
+				return []string{string(rune(n))}, true
+			}
+		}
+		return nil, false
+	}
+	// out[b]: texts accumulated when control leaves b
+	in := map[*ssa.BasicBlock][]string{al.Block(): {""}}
+	out := map[*ssa.BasicBlock][]string{}
+	apply := func(b *ssa.BasicBlock, acc []string, upto ssa.Instruction) ([]string, bool) {
+		for _, ins := range b.Instrs {
+			if ins == upto {
+				break
+			}
+			c, ok := ins.(*ssa.Call)
+			if !ok {
+				continue
+			}
+			isW := false
+			for _, w := range writes[b] {
+				if w == c {
+					isW = true
+				}
+			}
+			if !isW {
+				continue
+			}
+			t, ok := textOf(c)
+			if !ok {
+				return nil, false
+			}
+			acc = product(acc, t)
+			if len(acc) > maxStrSet {
+				return nil, false
+			}
+		}
+		return uniq(acc), true
+	}
+	work := []*ssa.BasicBlock{al.Block()}
+	for steps := 0; len(work) > 0; steps++ {
+		if steps > 20*len(fn.Blocks)+100 {
+			return nil, false
+		}
+		b := work[0]
+		work = work[1:]
+		o, ok := apply(b, in[b], nil)
+		if !ok {
+			return nil, false
+		}
+		if len(o) == len(out[b]) && out[b] != nil {
+			continue
+		}
+		out[b] = o
+		for _, s := range b.Succs {
+			merged := uniq(append(append([]string(nil), in[s]...), o...))
+			if len(merged) > maxStrSet {
+				return nil, false
+			}
+			if len(merged) != len(in[s]) || in[s] == nil {
+				in[s] = merged
+				work = append(work, s)
+			}
+		}
+	}
+	acc, have := in[call.Block()]
+	if !have {
+		return nil, false
+	}
+	res, ok := apply(call.Block(), acc, call)
+	if !ok || len(res) == 0 {
+		return nil, false
+	}
+	return res, true
 }
